@@ -14,7 +14,12 @@ spec:     spec/Glob.tla       reference GlobMatch / RefMatches / RefFind over co
                               add_license_paragraph on documents PARSED with stand-alone License paragraphs anywhere
                               between the Files paragraphs (every layout is an initial state), dump + parse again;
                               lookups return the IDENTITY of a paragraph (negative controls LookupMemo = seeded change
-                              C16-seedB, FilesEndCounter = C16-seedJ, ScanStopsAtLicense)
+                              C16-seedB, FilesEndCounter = C16-seedJ, ScanStopsAtLicense).  Content classes oth[k] of
+                              the fields other than Files: CONTENT-EQUAL paragraphs (copy-and-paste duplicates, also
+                              equal to the paragraph being added; Touch edits the other fields) are still two
+                              paragraphs (configuration MC_GlobFind_eq.cfg; negative control InsertByValue = the last
+                              Files paragraph located by value, C16-seedK).  Fault(f): a call whose caller-supplied
+                              argument fails part-way changes nothing (notes/SIZE_STRESS.md part 5)
           spec/TraceGlob.tla  trace validation with the reference operators on concrete code points
 binding:  (a) spec -> code: TLC emits one CASE line per pattern list (expected result for EVERY name up
               to the bound), one DOC line per document (expected paragraph index for every name) and
@@ -55,13 +60,37 @@ KeyBeforeTranslate=TRUE (seeded change C16-seedC) and ConvMemo=TRUE (converted F
 object, dropped by the setter only: C16-seedI) violate SameResult, MemoKeyJoined=TRUE with JoinSep =
 LF / blank / none (seeded change C16-seedD) violates OutFaithful, LookupMemo=TRUE, FilesEndCounter=TRUE
 (insert position of add_files_paragraph kept as a counter: C16-seedJ; also violates ImplOrder) and
-ScanStopsAtLicense=TRUE violate FindIsLast (quick runs prefix, ConvMemo, FilesEndCounter and MemoKeyJoined/LF).
+ScanStopsAtLicense=TRUE violate FindIsLast InsertByValue=TRUE (last Files paragraph located by value: C16-seedK; also violates ImplOrder) violates FindIsLast
+(quick runs prefix, ConvMemo, FilesEndCounter, InsertByValue and MemoKeyJoined/LF).
+
+content-equal paragraphs (round 6).  Two Files paragraphs with the same Files text (same layout), Copyright, License and
+extra fields are still two paragraphs of the document: the statement counts paragraphs ("the last Files paragraph in the
+document that matches"), not contents, so documents with copy-and-paste duplicates are IN the domain, and so is adding
+a paragraph whose content equals that of a paragraph already there (add_files_paragraph documents "inserted directly
+after the last FilesParagraph").  The model gives every paragraph a content class oth[k] (0 = content of its own, m > 0 =
+shared); the binding writes the class into the X-Tag field ("p<k>" / "dup<m>"), gives the paragraphs of a shared class
+one Files layout per history (mostly the one the files setter writes), and numbers the paragraphs that share a tag in
+the order they occur after a parse (Doc.parsed).  Both legs: every state / addfiles / touch edge of the closed model
+MC_GlobFind_eq (quick: <= 3 Files x <= 1 License paragraphs, 2 pattern lists, 2 classes) + walks; recorded histories
+in which 30% of the documents hold a duplicated paragraph and 40% of the paragraphs added to those are copies.
+
+faults of caller-supplied objects (notes/SIZE_STRESS.md part 5).  Ordinary steps of the GlobFind histories (edge
+"fault", every state) and of the recorded histories (event "fault"): the dump of the live document parsed from a
+generator of str / bytes lines, a list iterator or a BufferedReader / TextIOWrapper over a raw stream that raises
+(OSError, ValueError, KeyError, UnicodeDecodeError, a private exception class) or ends early at the first / a middle /
+the last step (also in the middle of a multi-byte character); c.dump(fd) with an fd whose k-th write() raises or is
+short; p.files = / FilesParagraph.create( / globs_to_re( an iterable that raises after 0..9 patterns or yields a None.
+What the faulted call itself does is not an observable of C16 (logged in ctx.extra["faulted_calls"], never judged); the
+model says NOTHING changed, which the following ordinary steps show: lookups on the same document, edits, a fresh parse
+of the same text in the same process (the model's Reparse step is put behind every other failed parse).
 
 identity.  find_files_paragraph is judged by the IDENTITY of the paragraph it returns (DESIGN.md: "identity of the
 returned paragraph"): the number of the paragraph in the order the Files paragraphs came into the document (text
 order for a parsed document, then every add_files_paragraph).  The harness follows the objects (`is`) and puts the
-number into an extra field (X-Tag) of every paragraph it writes, so the identity survives dump + parse.  A position
-in all_files_paragraphs() is NOT used: a paragraph inserted at the wrong place would shift the positions with it.
+number into an extra field (X-Tag) of every paragraph it writes, so the identity survives dump + parse (paragraphs of a
+shared content class carry the same tag and are numbered by order of occurrence among themselves: content-equal
+paragraphs cannot be told apart in a text, and a swap of two of them is not observable by any later step either).
+A position in all_files_paragraphs() is NOT used: a paragraph inserted at the wrong place would shift the positions.
 
 API surface / input forms (notes/API_SURFACE.md, notes/SIZE_STRESS.md part 4; harness/forms_c16.py) -> leg:
   FilesParagraph.create(files, ..)                        replay match/doc/cache/find/memo, trace   ("prog", origin create)
@@ -87,6 +116,12 @@ API surface / input forms (notes/API_SURFACE.md, notes/SIZE_STRESS.md part 4; ha
                                                           replay doc / find / match (rotating sample), trace;
       with a line end exactly at / one before / one after 2^9..2^17 (padded header field, single line or folded;
       inside a Files value, between fields, at a separator, at the end): replay doc / find (ctx.extra aligned_cases)
+  a document with CONTENT-EQUAL Files paragraphs (parsed or built), add_files_paragraph(a paragraph content-equal to one
+      of the document), other fields edited until two paragraphs are equal / no longer equal
+                                                          find_eq histories (MC_GlobFind_eq: addfiles / touch edges), trace
+  the same calls with a FAULTING caller-supplied argument: Copyright(lines / file object that raises or ends early),
+      c.dump(fd that fails), p.files = / create( / globs_to_re( iterable that raises ), then ordinary steps
+                                                          fault edges of GlobFind (both configurations), trace event fault
   Copyright() + add_files_paragraph / add_license_paragraph   routes prog*, addfiles / addlicense edges on documents of
       every origin (parsed with License paragraphs before / between / after the Files paragraphs, programmatic,
       re-parsed), trace
@@ -124,9 +159,9 @@ import size_c16 as sz
 from lts import LTS, skey, strip
 
 MANIFEST = dict(
-    technique="TLA+ spec (Glob: recursive glob reference + regex-translation/alternation/anchor/match-discipline implementation layer; GlobCache: per-paragraph files_pattern cache machine incl. its error path and Files rewritten through the underlying Deb822; GlobMemo: process-wide histories of direct globs_to_re calls; GlobFind: histories of one document -- Files edited, paragraphs added to parsed documents with License paragraphs in between, dump + re-parse -- with lookups judged by paragraph identity) model-checked by TLC over all pattern lists and names up to a bound; expected results for every (pattern list, name) and (document, name) emitted by TLC and replayed into FilesParagraph.matches / parsed paragraphs / find_files_paragraph; recorded histories validated by TLC (TraceGlob)",
-    text="TLC enumerates every list of <= 2 patterns of length <= 2 over {a, *, ?, backslash, LF} against every name up to length 2 (thorough, with 'b', '/' and '.' added: 1 pattern x <= 3 with names <= 4, 2 x <= 2 with names <= 3, and 2 x <= 3 with names <= 3 over the 4 symbols a * ? backslash) and checks that the model of globs_to_re + fullmatch agrees with the recursive glob reference, that exactly the ill-formed lists raise, and that the find loop returns the last matching paragraph of every document of <= 3 paragraphs; the re.match discipline (defect fixed by ae99ec4), a non-DOTALL dot, first-match-wins and a stale cache are rejected by TLC in every run. The expected results printed by TLC are replayed on the real code through create(), text parsing with multi-line Files fields, Files re-assignment (cache) and find_files_paragraph under literal concretizations chosen to hit re.escape and flags; random Unicode histories are validated by TLC against the reference. One paragraph object is also driven through error-path histories (a query that raised the format error, further queries, Files set to a legal value and back) from the closed cache model, and lists whose joined text coincides (['a\\nb'] vs ['a','b'], blank, no separator, '|') are translated in both orders within the process from the memo model; a cache key stored before translation and a memo keyed by the joined text are rejected by TLC. Histories of one document come from the closed model GlobFind (every layout of <= 3 Files and <= 2 stand-alone License paragraphs is a parsed document the history may start from): Files rewritten through the property setter or through the Deb822 object the creator of FilesParagraph(data) kept, add_files_paragraph / add_license_paragraph, dump and parse again, with every lookup judged by the IDENTITY of the returned paragraph (followed by object identity and by a tag field that survives a dump); a memoised converted Files value, an insert position kept as a counter and a scan that stops at a License paragraph are rejected by TLC. Documents reach Copyright() through every kind of line sequence and file object (text/binary/unbuffered files, short reads, gzip/bz2/lzma, spooled files, generators), a rotating sample with a line end placed exactly at / next to 2^9..2^17.",
-    note="Small-scope: bounds above; concretization of literal symbols is sampled (seeded). Patterns containing whitespace (LF, blanks) are only reachable through globs_to_re(list) and are judged there (globs_to_re(ps).fullmatch(name)). Unspecified: lists with an empty pattern, the empty list, find on documents with an ill-formed paragraph (ValueError or last well-formed match), a Files paragraph whose Files field was deleted through the Deb822 handle (never done), dump + re-parse of documents with legacy-encoded lines (never done). Document order is the order in which the Files paragraphs came into the document (add_files_paragraph: behind the last Files paragraph); the position of License paragraphs is not an observable. Sizes beyond what TLC scans (patterns up to 4097+ characters, names to 64 KiB, 200 patterns, 1000 paragraphs) are reached by the block and filler arguments of harness/size_c16.py (the block argument is itself model-checked for L = 3). Trusted: TLC, the 1:1 renaming of literal code points, those two arguments, the projection (bool of matches(), identity index of the returned paragraph).",
+    technique="TLA+ spec (Glob: recursive glob reference + regex-translation/alternation/anchor/match-discipline implementation layer; GlobCache: per-paragraph files_pattern cache machine incl. its error path and Files rewritten through the underlying Deb822; GlobMemo: process-wide histories of direct globs_to_re calls; GlobFind: histories of one document -- Files edited, paragraphs added to parsed documents with License paragraphs in between, dump + re-parse -- content classes for copy-and-paste duplicate paragraphs, faulted calls that change nothing -- with lookups judged by paragraph identity) model-checked by TLC over all pattern lists and names up to a bound; expected results for every (pattern list, name) and (document, name) emitted by TLC and replayed into FilesParagraph.matches / parsed paragraphs / find_files_paragraph; recorded histories validated by TLC (TraceGlob)",
+    text="TLC enumerates every list of <= 2 patterns of length <= 2 over {a, *, ?, backslash, LF} against every name up to length 2 (thorough, with 'b', '/' and '.' added: 1 pattern x <= 3 with names <= 4, 2 x <= 2 with names <= 3, and 2 x <= 3 with names <= 3 over the 4 symbols a * ? backslash) and checks that the model of globs_to_re + fullmatch agrees with the recursive glob reference, that exactly the ill-formed lists raise, and that the find loop returns the last matching paragraph of every document of <= 3 paragraphs; the re.match discipline (defect fixed by ae99ec4), a non-DOTALL dot, first-match-wins and a stale cache are rejected by TLC in every run. The expected results printed by TLC are replayed on the real code through create(), text parsing with multi-line Files fields, Files re-assignment (cache) and find_files_paragraph under literal concretizations chosen to hit re.escape and flags; random Unicode histories are validated by TLC against the reference. One paragraph object is also driven through error-path histories (a query that raised the format error, further queries, Files set to a legal value and back) from the closed cache model, and lists whose joined text coincides (['a\\nb'] vs ['a','b'], blank, no separator, '|') are translated in both orders within the process from the memo model; a cache key stored before translation and a memo keyed by the joined text are rejected by TLC. Histories of one document come from the closed model GlobFind (every layout of <= 3 Files and <= 2 stand-alone License paragraphs is a parsed document the history may start from): Files rewritten through the property setter or through the Deb822 object the creator of FilesParagraph(data) kept, add_files_paragraph / add_license_paragraph, dump and parse again, with every lookup judged by the IDENTITY of the returned paragraph (followed by object identity and by a tag field that survives a dump); a memoised converted Files value, an insert position kept as a counter, a scan that stops at a License paragraph and an insert position located by the VALUE of the last Files paragraph are rejected by TLC. Documents hold content-equal (copy-and-paste) Files paragraphs, paragraphs equal to an existing one are added, and the other fields are edited until paragraphs become equal (content classes of the model GlobFind, configuration MC_GlobFind_eq): such paragraphs stay two paragraphs. Calls whose caller-supplied argument fails part-way (line iterators / file objects that raise or end early, a failing file passed to dump, pattern iterables that raise) are ordinary steps of the document histories that must change nothing. Documents reach Copyright() through every kind of line sequence and file object (text/binary/unbuffered files, short reads, gzip/bz2/lzma, spooled files, generators), a rotating sample with a line end placed exactly at / next to 2^9..2^17.",
+    note="Small-scope: bounds above; concretization of literal symbols is sampled (seeded). Patterns containing whitespace (LF, blanks) are only reachable through globs_to_re(list) and are judged there (globs_to_re(ps).fullmatch(name)). What a call with a faulting caller-supplied argument itself raises / returns is not judged (logged), only that the document behaves as before afterwards. Unspecified: lists with an empty pattern, the empty list, find on documents with an ill-formed paragraph (ValueError or last well-formed match), a Files paragraph whose Files field was deleted through the Deb822 handle (never done), dump + re-parse of documents with legacy-encoded lines (never done). Document order is the order in which the Files paragraphs came into the document (add_files_paragraph: behind the last Files paragraph); the position of License paragraphs is not an observable. Sizes beyond what TLC scans (patterns up to 4097+ characters, names to 64 KiB, 200 patterns, 1000 paragraphs) are reached by the block and filler arguments of harness/size_c16.py (the block argument is itself model-checked for L = 3). Trusted: TLC, the 1:1 renaming of literal code points, those two arguments, the projection (bool of matches(), identity index of the returned paragraph).",
     design="5 (C16)")
 
 W = int(os.environ.get("VERIF_TLC_WORKERS", "8"))
@@ -272,7 +307,7 @@ LEGACY = [b"2003-2005 Adeodato Sim\xf3 <dato@net.com.org.es>", b"\x93quoted\x94 
           b"\xe9", b"Fran\xe7ois \xc9t\xe9 \xa9 1999", b"\xa9 2001 \xc5ke \xd6stlund", b"Jos\xe9 Mar\xeda Garc\xeda-L\xf3pez"]
 
 
-def legacy_document(seed, paras, order, lays):
+def legacy_document(seed, paras, order, lays, tags):
     """the document as bytes with legacy-encoded lines placed by a generator seeded with `seed`"""
     r = random.Random("legacy-%s" % seed)
     chunks = []
@@ -292,9 +327,9 @@ def legacy_document(seed, paras, order, lays):
             else:
                 chunks.append(LICPARA.encode("utf-8"))
             continue
-        text = files_para_text(paras[it], lays[it], it + 1)
+        text = files_para_text(paras[it], lays[it], tags[it])
         files_line, rest = text.split("\nCopyright: ", 1)
-        files_b = ("X-Tag: p%d\n" % (it + 1) + files_line + "\n").encode("utf-8")
+        files_b = ("X-Tag: %s\n" % tags[it] + files_line + "\n").encode("utf-8")
         how = r.choice(["before", "before", "after", "comment-before", "comment-after"]) if (force or r.random() < 0.5) else "none"
         lg = r.choice(LEGACY)
         if how == "before":          # the Copyright field (legacy bytes) listed BEFORE the Files field
@@ -326,9 +361,16 @@ def field_text(pats, lay):
 
 
 def files_para_text(pats, lay, tag=None):
-    """tag: identity of the paragraph, carried in an extra field so that it survives dump + parse"""
+    """tag: value of an extra field (X-Tag) by which the harness finds the paragraph again after dump + parse.
+    "p<k>" = a value only the paragraph with identity k has; paragraphs that share a tag, the Files text and
+    the layout are CONTENT-EQUAL (copy-and-paste duplicates: GlobFind.tla, oth) and are told apart by the
+    order in which they occur (Doc.parsed)"""
     return "Files:%s%s\nCopyright: 2024 Someone\nLicense: GPL-2+\n%s" % (
-        "" if lay["first"] else " ", field_text(pats, lay), "" if tag is None else "X-Tag: p%d\n" % tag)
+        "" if lay["first"] else " ", field_text(pats, lay), "" if tag is None else "X-Tag: %s\n" % tag)
+
+
+def unique_tags(n):
+    return ["p%d" % (i + 1) for i in range(n)]
 
 
 # how a Files paragraph comes into being programmatically.  With a HANDLE: the Deb822 object handed to
@@ -372,8 +414,170 @@ def make_paragraph(pats, origin, lay, tag):
         p = list(other.all_files_paragraphs())[0]
     else:
         raise core.MachineryError("unknown paragraph origin %r" % (origin,))
-    p["X-Tag"] = "p%d" % tag
+    p["X-Tag"] = tag
     return p, d
+
+
+# ---- faults of caller-supplied objects (notes/SIZE_STRESS.md part 5; GlobFind.tla Fault): the argument of a call
+# fails part-way; in the model NOTHING changes, the history goes on with ordinary steps on the same objects.
+
+class CallerFault(Exception):
+    """an exception class only the caller knows"""
+
+
+FAULT_KINDS = ["parse", "dump", "setfiles", "translate"]
+FAULT_EXC = [OSError, ValueError, KeyError, CallerFault, UnicodeDecodeError]
+FAULT_LOG = {}          # "<kind>/<variant>: <outcome>" -> count (diagnostics: ctx.extra["faulted_calls"])
+
+
+def _raise(exc):
+    if exc is UnicodeDecodeError:
+        raise UnicodeDecodeError("utf-8", b"\xc3", 0, 1, "caller-made")
+    raise exc("caller-made fault")
+
+
+def faulty_iter(items, at, exc):
+    """yields items[:at], then raises exc (exc None: just stops = early end of the input)"""
+    for x in items[:at]:
+        yield x
+    if exc is not None:
+        _raise(exc)
+
+
+class FaultyRaw(io.RawIOBase):
+    """raw stream under an io.BufferedReader: short reads; after `at` bytes read() raises exc or reports EOF
+    (possibly in the middle of a multi-byte character)"""
+
+    def __init__(self, data, at, exc):
+        self.data, self.pos, self.at, self.exc = data, 0, at, exc
+
+    def readable(self):
+        return True
+
+    def readinto(self, b):
+        if self.pos >= self.at:
+            if self.exc is None:
+                return 0
+            _raise(self.exc)
+        n = min(len(b), 1 + self.pos % 7, self.at - self.pos)
+        b[:n] = self.data[self.pos:self.pos + n]
+        self.pos += n
+        return n
+
+
+class FaultyWriter:
+    """text file whose write() fails at the `at`-th call: raises exc, or (exc None) takes only half of the
+    string and says so"""
+
+    def __init__(self, at, exc):
+        self.at, self.exc, self.calls, self.got = at, exc, 0, []
+
+    def write(self, text):
+        self.calls += 1
+        if self.calls == self.at:
+            if self.exc is None:
+                self.got.append(text[:len(text) // 2])
+                return len(text) // 2
+            _raise(self.exc)
+        self.got.append(text)
+        return len(text)
+
+    def flush(self):
+        pass
+
+
+def fault_at(r, n):
+    """the first, a middle or the last step of n"""
+    return r.choice([0, 0, n // 2, max(0, n - 1), n])
+
+
+def faulted_call(doc, kind, r):
+    """carry out one call of `kind` whose caller-supplied argument fails part-way, on / next to the live
+    document `doc`.  What the faulted call itself does is outside C16's statement: it is logged (FAULT_LOG), never
+    judged; the model says that nothing has changed, which the NEXT ordinary steps of the history show.
+    Returns a description for messages."""
+    from debian import copyright as C
+    exc = r.choice(FAULT_EXC + [None])
+    variant = "?"
+    expect_exc = exc is not None
+    try:
+        if kind == "parse":
+            text = doc.c.dump()
+            lines = text.split("\n")
+            variant = r.choice(["gen-str", "gen-bytes", "list-iter", "raw", "raw-text"])
+            if variant in ("raw", "raw-text"):
+                data = text.encode("utf-8")
+                at = r.choice([0, 1, len(data) // 2, max(0, len(data) - 1), len(data)])
+                nonascii = [i for i, b in enumerate(data) if b >= 0xc0]
+                if nonascii and r.random() < 0.5:
+                    at = r.choice(nonascii) + 1         # cuts a multi-byte character
+                f = io.BufferedReader(FaultyRaw(data, at, exc), buffer_size=16)
+                arg = io.TextIOWrapper(f, encoding="utf-8") if variant == "raw-text" else f
+            else:
+                at = fault_at(r, len(lines))
+                items = [ln + "\n" for ln in lines]
+                if variant == "gen-bytes":
+                    items = [x.encode("utf-8") for x in items]
+                arg = faulty_iter(items, at, exc)
+                if variant == "list-iter":
+                    arg = iter(list(items[:at]) + [None]) if exc is None else arg     # a line that is no string at all
+                    expect_exc = True
+            what = "Copyright(<%s of the dumped document failing after %d %s: %s>)" % (
+                variant, at, "bytes" if variant.startswith("raw") else "lines", exc.__name__ if exc else "early end")
+            import logging
+            import warnings
+            logging.disable(logging.CRITICAL)       # "format not known" for a header line cut short: not of interest
+            try:
+                with warnings.catch_warnings():
+                    warnings.simplefilter("ignore")
+                    C.Copyright(arg, strict=r.random() < 0.8)
+            finally:
+                logging.disable(logging.NOTSET)
+        elif kind == "dump":
+            variant = "writer"
+            nwrites = 2 + 2 * len(doc.objs)
+            at = 1 + fault_at(r, nwrites)
+            what = "dump(<file whose write() call %d %s>)" % (at, "raises " + exc.__name__ if exc else "is short")
+            doc.c.dump(FaultyWriter(at, exc))
+            expect_exc = False if exc is None else None     # the call may be over before write number `at`
+        elif kind == "setfiles":
+            good = ["zz-fault%d*" % i for i in range(r.choice([0, 1, 2, 9]))]
+            expect_exc = True
+            if exc is None:
+                good = good + [None]                          # an item that is no string
+            arg = faulty_iter(good, len(good), exc)
+            if doc.objs and r.random() < 0.8:
+                k = r.randrange(len(doc.objs))
+                variant = "setter"
+                what = "paragraph %d .files = <iterable failing after %d patterns: %s>" % (k + 1, len(good), exc.__name__ if exc else "a None item")
+                doc.objs[k].files = arg
+            else:
+                variant = "create"
+                what = "FilesParagraph.create(<iterable failing after %d patterns>, ..)" % len(good)
+                C.FilesParagraph.create(arg, "2024 Someone", C.License("GPL-2+"))
+        elif kind == "translate":
+            variant = "globs_to_re"
+            good = r.choice([[], ["*"], ["zz-fault*", "?", "*"]])
+            expect_exc = True
+            if exc is None:
+                good = good + [None]
+            what = "globs_to_re(<iterable failing after %d patterns>)" % len(good)
+            C.globs_to_re(faulty_iter(good, len(good), exc))
+        else:
+            raise core.MachineryError("unknown fault kind %r" % (kind,))
+        out = "returned"
+    except core.MachineryError:
+        raise
+    except Exception as e:
+        if exc is not None and type(e) is exc:
+            out = "caller's exception"
+        elif isinstance(e, (ValueError, TypeError, AttributeError)) or type(e).__module__.startswith("debian"):
+            out = "library error"               # e.g. a format error for the truncated text, TypeError for None
+        else:
+            out = "other exception " + type(e).__name__
+    key = "%s/%s: %s" % (kind, variant, out if expect_exc is not True or out != "returned" else "returned although the argument failed")
+    FAULT_LOG[key] = FAULT_LOG.get(key, 0) + 1
+    return what + " -> " + out
 
 
 class Doc:
@@ -384,24 +588,35 @@ class Doc:
     def __init__(self, c):
         self.c = c
         self.objs, self.data, self.alias = [], [], []
+        self.tags = []          # tags[k-1] = the X-Tag value paragraph k carries (several paragraphs may share one)
         self.nraw = 0
 
     @classmethod
-    def parsed(cls, c, n):
+    def parsed(cls, c, tags):
+        """tags[k-1] = the tag the paragraph with identity k was written with.  Paragraphs that share a tag
+        are numbered in the order they occur in the parsed document (text order = the order they came in)"""
         self = cls(c)
+        n = len(tags)
         found = {}
         total = 0
         for p in c.all_files_paragraphs():
             total += 1
             try:
-                found[p["X-Tag"]] = p
+                found.setdefault(p["X-Tag"], []).append(p)
             except Exception:
                 pass
-        want = ["p%d" % (i + 1) for i in range(n)]
-        if total != n or sorted(found) != sorted(want):
-            raise LookupError("document shows %d Files paragraphs (tags %s), built with %d"
-                              % (total, ",".join(sorted(found)[:8]), n))
-        self.objs = [found[t] for t in want]
+        want = {}
+        for t in tags:
+            want[t] = want.get(t, 0) + 1
+        if total != n or {t: len(v) for t, v in found.items()} != want:
+            raise LookupError("document shows %d Files paragraphs (tags %s), built with %d (tags %s)"
+                              % (total, ",".join("%s x%d" % (t, len(v)) for t, v in sorted(found.items())[:8]), n,
+                                 ",".join("%s x%d" % kv for kv in sorted(want.items())[:8])))
+        nxt = {}
+        for t in tags:
+            self.objs.append(found[t][nxt.get(t, 0)])
+            nxt[t] = nxt.get(t, 0) + 1
+        self.tags = list(tags)
         self.data = [None] * n
         self.alias = [None] * n
         return self
@@ -426,11 +641,13 @@ class Doc:
         p = self.alias[k] if alias and self.alias[k] is not None else self.objs[k]
         return obs_match(p, name)
 
-    def addfiles(self, pats, origin, lay):
+    def addfiles(self, pats, origin, lay, tag=None):
         from debian import copyright as C
-        p, d = make_paragraph(pats, origin, lay, len(self.objs) + 1)
+        tag = tag or "p%d" % (len(self.objs) + 1)
+        p, d = make_paragraph(pats, origin, lay, tag)
         self.c.add_files_paragraph(p)
         self.objs.append(p)
+        self.tags.append(tag)
         self.data.append(d)
         self.alias.append(C.FilesParagraph(d) if d is not None else None)
 
@@ -453,6 +670,16 @@ class Doc:
             d.update({"Files": value})
         else:
             d[("Files", "files", "FILES")[self.nraw % 3]] = value
+
+    def retag(self, k, tag):
+        """the other content of paragraph k edited so that it is that of the paragraphs tagged `tag`"""
+        p, d = self.objs[k], self.data[k]
+        self.nraw += 1
+        if d is not None and self.nraw % 2:
+            d["X-Tag"] = tag
+        else:
+            p["X-Tag"] = tag
+        self.tags[k] = tag
 
     def touch(self, k, what):
         """edit something else of paragraph k: no lookup may depend on it"""
@@ -487,25 +714,27 @@ class Doc:
             c2 = C.Copyright(obj)
         finally:
             fm.close_all(closers)
-        new = Doc.parsed(c2, len(self.objs))
+        new = Doc.parsed(c2, self.tags)
         self.c, self.objs, self.data, self.alias = c2, new.objs, new.data, new.alias
 
 
-def build_doc_ex(route, paras, order, lays):
+def build_doc_ex(route, paras, order, lays, tags=None):
     """paras: list of lists of pattern strings; order: sequence of paragraph indexes (ascending) and 'L'
     (stand-alone License paragraphs in between).  Textual routes give exactly that layout; programmatic
     routes call add_files_paragraph / add_license_paragraph in that order (so the License paragraphs end
-    up behind the Files paragraphs).  Returns the Doc."""
+    up behind the Files paragraphs).  tags: the X-Tag value of every paragraph (default: a value of its own;
+    paragraphs given the same tag, patterns and layout are content-equal).  Returns the Doc."""
     from debian import copyright as C
     n = len(paras)
+    tags = list(tags) if tags else unique_tags(n)
     if route.startswith("legacy:"):
         import warnings
         with warnings.catch_warnings():
             warnings.simplefilter("ignore")
-            return Doc.parsed(C.Copyright(legacy_document(route[7:], paras, order, lays)), n)
+            return Doc.parsed(C.Copyright(legacy_document(route[7:], paras, order, lays, tags)), tags)
     if route.startswith("fobj:"):
         spec = fm.parse_route(route)
-        body = "\n" + "\n".join(LICPARA if it == "L" else files_para_text(paras[it], lays[it], it + 1) for it in order)
+        body = "\n" + "\n".join(LICPARA if it == "L" else files_para_text(paras[it], lays[it], tags[it]) for it in order)
         text, _ = fm.steer(HEADER, body, spec)
         obj, closers = fm.open_form(spec["kind"], text, SCRATCH)
         kw = {}
@@ -514,19 +743,19 @@ def build_doc_ex(route, paras, order, lays):
         if "e" in spec["flags"]:
             kw["encoding"] = "utf-8"
         try:
-            return Doc.parsed(C.Copyright(obj, **kw), n)
+            return Doc.parsed(C.Copyright(obj, **kw), tags)
         finally:
             fm.close_all(closers)
     if route in TEXTUAL:
         parts = [HEADER]
         for it in order:
-            parts.append(LICPARA if it == "L" else files_para_text(paras[it], lays[it], it + 1))
+            parts.append(LICPARA if it == "L" else files_para_text(paras[it], lays[it], tags[it]))
         text = "\n".join(parts)
         if route == "lines":
-            return Doc.parsed(C.Copyright([ln + "\n" for ln in text.split("\n")]), n)
+            return Doc.parsed(C.Copyright([ln + "\n" for ln in text.split("\n")]), tags)
         if route == "bytes":
-            return Doc.parsed(C.Copyright([(ln + "\n").encode("utf-8") for ln in text.split("\n")]), n)
-        return Doc.parsed(C.Copyright(io.StringIO(text)), n)
+            return Doc.parsed(C.Copyright([(ln + "\n").encode("utf-8") for ln in text.split("\n")]), tags)
+        return Doc.parsed(C.Copyright(io.StringIO(text)), tags)
     if route not in PROG_ROUTES:
         raise core.MachineryError("unknown route %r" % (route,))
     doc = Doc(C.Copyright())
@@ -537,7 +766,7 @@ def build_doc_ex(route, paras, order, lays):
             if it != len(doc.objs):
                 raise core.MachineryError("paragraph indexes of a programmatic document must ascend")
             origin = PROG_ROUTES[route] or ORIGINS[(it + len(paras[it]) + n) % len(ORIGINS)]
-            doc.addfiles(paras[it], origin, lays[it])
+            doc.addfiles(paras[it], origin, lays[it], tags[it])
     return doc
 
 
@@ -814,8 +1043,25 @@ def run_find_path(start, path, cmap, route, lays, seed, bad=()):
     r = random.Random("findconc-%s" % (seed,))
     paras = [[cstr(cmap, g) for g in ps] for ps in start["d"]]
     illformed = [skey(ps) in bad for ps in start["d"]]
+    # content classes (GlobFind.tla, oth): mark 0 = a tag of its own; mark m > 0 = the tag "dup<m>", and ONE layout
+    # of the Files text per history for every paragraph of a shared class, so that paragraphs of the same class
+    # with the same patterns are content-equal (most often the layout the files setter itself writes)
+    marks = list(start.get("oth") or [0] * len(paras))
+    style = r.choice(["canon", "canon", "canon", "nl", "tab"])
+    shared = any(marks) or any(e["op"] in ("touch", "addfiles") and e["args"][1] for e in path)
+
+    def mark_tag(m, k):
+        return "p%d" % k if m == 0 else "dup%d" % m
+
+    def shared_lay(npat):
+        first, sep = {"canon": ("", " "), "nl": ("\n ", "\n "), "tab": ("", "\t")}[style]
+        return {"first": first, "seps": [sep] * max(0, npat - 1)}
+
+    tags = [mark_tag(m, k + 1) for k, m in enumerate(marks)]
+    if shared:
+        lays = [shared_lay(len(ps)) if m else lay for ps, m, lay in zip(paras, marks, lays)]
     try:
-        doc = build_doc_ex(route, paras, lay_order(start["lay"]), lays)
+        doc = build_doc_ex(route, paras, lay_order(start["lay"]), lays, tags)
     except Exception as e:
         if isinstance(e, ValueError) and any(illformed):
             return None             # an ill-formed list of the pool reported eagerly
@@ -831,9 +1077,11 @@ def run_find_path(start, path, cmap, route, lays, seed, bad=()):
             if got != e["res"] and not (e["res"] == -1 and got == e["alt"]):
                 return ("step %d: find_files_paragraph(%r) -> %s, specification says %s (identity of the last matching paragraph "
                         "= its number in the order the Files paragraphs came into the document, 0 = None, -1 = format error) "
-                        "on Files paragraphs %r; document built via %s with layout %r (0 = stand-alone License paragraph); "
+                        "on Files paragraphs %r%s; document built via %s with layout %r (0 = stand-alone License paragraph); "
                         "earlier on this document: %s"
-                        % (i + 1, name, got, e["res"], cur, route, start["lay"], "; ".join(hist[-5:]) or "-"))
+                        % (i + 1, name, got, e["res"], cur,
+                           " whose other fields are %r (paragraphs with the same tag and patterns are content-equal duplicates)" % (doc.tags,)
+                           if any(marks) else "", route, start["lay"], "; ".join(hist[-5:]) or "-"))
             hist.append("find_files_paragraph(%r) -> %s" % (name, got))
             continue
         try:
@@ -843,7 +1091,7 @@ def run_find_path(start, path, cmap, route, lays, seed, bad=()):
                 illformed[k - 1] = skey(ps) in bad
                 if op == "rawset":
                     via = "through the Deb822 its creator kept" if doc.data[k - 1] is not None else "(setter)"
-                    doc.rawset(k - 1, new, rand_seps(r, len(new), True))
+                    doc.rawset(k - 1, new, shared_lay(len(new)) if marks[k - 1] else rand_seps(r, len(new), True))
                     what = "paragraph %d Files := %r %s" % (k, new, via)
                 else:
                     doc.setfiles(k - 1, new)
@@ -851,11 +1099,22 @@ def run_find_path(start, path, cmap, route, lays, seed, bad=()):
                 cur[k - 1] = new
             elif op == "addfiles":
                 new = [cstr(cmap, g) for g in e["args"][0]]
+                m = e["args"][1] if len(e["args"]) > 1 else 0
                 illformed.append(skey(e["args"][0]) in bad)
-                origin = r.choice(ORIGINS)
-                doc.addfiles(new, origin, rand_seps(r, len(new), origin in TEXT_ORIGINS))
+                origin = r.choice(ORIGINS if not m or style == "canon" else TEXT_ORIGINS)
+                marks.append(m)
+                doc.addfiles(new, origin, shared_lay(len(new)) if m else rand_seps(r, len(new), origin in TEXT_ORIGINS),
+                             mark_tag(m, len(marks)))
                 cur.append(new)
-                what = "add_files_paragraph(%r [%s]) = paragraph %d" % (new, origin, len(cur))
+                what = "add_files_paragraph(%r [%s%s]) = paragraph %d" % (
+                    new, origin, ", other fields as in every paragraph tagged %s" % mark_tag(m, 0) if m else "", len(cur))
+            elif op == "touch":
+                k, m = e["args"]
+                marks[k - 1] = m
+                doc.retag(k - 1, mark_tag(m, k))
+                what = "paragraph %d: other fields := those of the paragraphs tagged %s" % (k, mark_tag(m, k))
+            elif op == "fault":
+                what = faulted_call(doc, e["args"][0], r)
             elif op == "addlicense":
                 doc.addlicense()
                 what = "add_license_paragraph"
@@ -1036,6 +1295,20 @@ def rand_script(rng, nops, big=False):
     if big:
         npar = rng.choice([99, 100, 101]) if many_paras else rng.choice([1, 1, 2])
     paras = [plist() for _ in range(npar)]
+    # copy-and-paste duplicates: two Files paragraphs of the document are content-equal (same patterns, same layout,
+    # same other fields incl. the tag), and paragraphs added later may be copies of existing ones
+    dups = not big and rng.random() < 0.3
+    twin = None
+    if dups:
+        i = rng.randrange(npar)
+        if npar == 1 or rng.random() < 0.4:
+            paras.append(list(paras[i]))
+            npar += 1
+            twin = (i, npar - 1)
+        else:
+            j = rng.choice([x for x in range(npar) if x != i])
+            paras[j] = list(paras[i])
+            twin = (i, j)
     route = rng.choice(["prog", "prog-set", "prog-ctor", "prog-raw", "prog-text", "prog-mix", "prog-mix", "text", "lines", "bytes",
                         "form", "form", "form", "legacy:%d" % rng.randrange(10 ** 6)])
     if big:
@@ -1043,7 +1316,7 @@ def rand_script(rng, nops, big=False):
     if route == "form":
         route = FORMS.plain() if FORMS is not None else "text"
     if not big and rng.random() < 0.12:     # built from scratch: Copyright(), then add_files_paragraph / add_license_paragraph
-        npar, paras, route = 0, [], "prog"
+        npar, paras, route, twin = 0, [], "prog", None
     order = []
     for k in range(npar):
         if rng.random() < 0.3:
@@ -1053,8 +1326,14 @@ def rand_script(rng, nops, big=False):
         order.append("L")
     laid_out = route in TEXTUAL or route in ("prog-ctor", "prog-raw", "prog-text", "prog-mix")
     lays = [rand_seps(rng, len(ps), laid_out) for ps in paras]
+    tags = unique_tags(npar)
+    if twin:
+        lays[twin[1]] = lays[twin[0]]
+        tags[twin[0]] = tags[twin[1]] = "dup1"
     ops = []
     cur = [list(ps) for ps in paras]
+    cur_lay = list(lays)
+    plain_lay = lambda k: {"first": "", "seps": [" "] * max(0, k - 1)}      # what the files setter writes
 
     def literal(nm):
         return "".join("\\" + ch if ch in "*?\\" else ch for ch in nm)
@@ -1071,10 +1350,19 @@ def rand_script(rng, nops, big=False):
                 new[rng.randrange(len(new))] = rng.choice(["*", "*?" if nm else "*", "?" * len(nm) if nm else "*"])
             names.append(nm)
         origin = rng.choice(ORIGINS)
+        lay = rand_seps(rng, len(new), origin in TEXT_ORIGINS)
+        tag = "p%d" % (len(cur) + 1)
+        if dups and cur and rng.random() < 0.4:         # a copy of a paragraph the document already has
+            i = rng.randrange(len(cur))
+            new, names, tag, lay = list(cur[i]), [], tags[i], cur_lay[i]
+            if lay != plain_lay(len(new)):
+                origin = rng.choice(TEXT_ORIGINS)
         if rng.random() < 0.35:
             ops.append(["addlicense"])
-        ops.append(["addfiles", new, origin, rand_seps(rng, len(new), origin in TEXT_ORIGINS)])
+        ops.append(["addfiles", new, origin, lay, tag])
         cur.append(new)
+        cur_lay.append(lay if origin in TEXT_ORIGINS else plain_lay(len(new)))
+        tags.append(tag)
         names.append(rand_name(rng, new, nalpha))
         for nm in names:
             ops.append(["find", nm])
@@ -1096,10 +1384,12 @@ def rand_script(rng, nops, big=False):
         r = rng.random()
         npar = len(cur)
         k = rng.randrange(npar)
-        if not many_paras and npar < 8 and rng.random() < 0.11:
+        if not many_paras and npar < 8 and rng.random() < (0.3 if dups else 0.11):
             add_paragraph()
         elif rng.random() < 0.05:
             ops.append(["addlicense"])
+        elif rng.random() < 0.05:       # a call whose caller-supplied argument fails part-way: nothing may change
+            ops.append(["fault", rng.choice(FAULT_KINDS), rng.randrange(10 ** 9)])
         elif rng.random() < 0.05 and not route.startswith("legacy:"):
             ops.append(["reparse", rng.choice(REPARSE_KINDS), rng.random() < 0.5])
         elif rng.random() < 0.06:
@@ -1142,6 +1432,7 @@ def rand_script(rng, nops, big=False):
                 rng.shuffle(new)
                 cur[k] = new
                 ops.append(["setfiles", k, new] if rng.random() < 0.5 else ["rawset", k, new, rand_seps(rng, len(new), True)])
+                cur_lay[k] = ops[-1][3] if ops[-1][0] == "rawset" else plain_lay(len(new))
                 ops.append(["find", nm])
         else:
             new = plist()
@@ -1151,7 +1442,9 @@ def rand_script(rng, nops, big=False):
                 new = [p if not p.endswith("\\") else p[:-1] + rng.choice(alpha) for p in new]
             cur[k] = new
             ops.append(["setfiles", k, new] if rng.random() < 0.5 else ["rawset", k, new, rand_seps(rng, len(new), True)])
-    return {"route": route, "paras": paras, "order": order, "lays": lays, "ops": ops, "injected_bad": injected[0]}
+            cur_lay[k] = ops[-1][3] if ops[-1][0] == "rawset" else plain_lay(len(new))
+    return {"route": route, "paras": paras, "order": order, "lays": lays, "tags": tags[:len(paras)], "ops": ops,
+            "injected_bad": injected[0]}
 
 
 def cps(s):
@@ -1163,7 +1456,7 @@ def execute(script):
     (None, reason) when the document cannot be set up (not a C16 observable)"""
     bad_ok = script.get("injected_bad")
     try:
-        doc = build_doc_ex(script["route"], script["paras"], script["order"], script["lays"])
+        doc = build_doc_ex(script["route"], script["paras"], script["order"], script["lays"], script.get("tags"))
     except Exception as e:
         if isinstance(e, ValueError) and bad_ok:
             return None, "eager"    # an injected ill-formed glob reported when the document is built
@@ -1195,7 +1488,7 @@ def execute(script):
                     doc.rawset(op[1], op[2], op[3])
                     ev = {"op": "rawset", "k": op[1] + 1, "ps": [cps(p) for p in op[2]]}
                 elif op[0] == "addfiles":
-                    doc.addfiles(op[1], op[2], op[3])
+                    doc.addfiles(op[1], op[2], op[3], op[4] if len(op) > 4 else None)
                     ev = {"op": "addfiles", "ps": [cps(p) for p in op[1]]}
                 elif op[0] == "addlicense":
                     doc.addlicense()
@@ -1206,6 +1499,9 @@ def execute(script):
                 elif op[0] == "touch":
                     doc.touch(op[1], op[2])
                     ev = {"op": "touch"}
+                elif op[0] == "fault":
+                    faulted_call(doc, op[1], random.Random("fault-%d" % op[2]))
+                    ev = {"op": "fault"}
                 else:
                     raise core.MachineryError("script with unknown op %r" % (op[0],))
             except core.MachineryError:
@@ -1281,6 +1577,13 @@ STATIC_CONTROLS = [
          {"op": "find", "n": [97], "res": 1}),
     _ctl([[[97]]], {"op": "addlicense"}, {"op": "touch"}, {"op": "find", "n": [97], "res": 0}),
     _ctl([[[97]]], {"op": "refused:reparse", "exc": "ValueError"}),
+    # a call with a faulting argument changes nothing: the paragraph still matches, the answers given stay
+    _ctl([[[97]]], {"op": "fault"}, {"op": "find", "n": [97], "res": 0}),
+    _ctl([[[42]]], {"op": "fault"}, {"op": "matches", "k": 1, "n": [97], "res": "nomatch"}),
+    _ctl([[[42]], [[92, 97]]], {"op": "find", "n": [97], "res": -1}, {"op": "fault"}, {"op": "find", "n": [97], "res": 1}),
+    # two content-equal paragraphs are two paragraphs: the later one is the answer, and a paragraph added wins over both
+    _ctl([[[42]], [[98]], [[42]]], {"op": "find", "n": [97], "res": 1}),
+    _ctl([[[42]], [[98]], [[42]]], {"op": "addfiles", "ps": [[97]]}, {"op": "find", "n": [97], "res": 3}),
 ]
 
 
@@ -1379,11 +1682,19 @@ def run(ctx):
              cfg=cfg_text("MC_GlobFind_quick.cfg", props=["FindIsLast"], ScanStopsAtLicense="TRUE", Emit='"none"')),
         dict(name="neg-convmemo", module="GlobCache", expect="SameResult",
              cfg=cfg_text("MC_GlobCache.cfg", props=["SameResult"], ConvMemo="TRUE", Emit='"none"')),
+        # documents with content-equal (copy-and-paste) Files paragraphs, also equal to the paragraph being added
+        dict(name="find-eq-lts", module="GlobFind", tags={"EDGE"},
+             cfg="MC_GlobFind_eq.cfg" if quick else cfg_text("MC_GlobFind_eq.cfg", MaxLic="2")),
+        dict(name="neg-insertbyvalue", module="GlobFind", expect="FindIsLast",
+             cfg=cfg_text("MC_GlobFind_eq.cfg", props=["FindIsLast"], InsertByValue="TRUE", Emit='"none"', MaxLic="0" if quick else "1")),
+        dict(name="neg-insertbyvalue-order", module="GlobFind", expect="ImplOrder",
+             cfg=cfg_text("MC_GlobFind_eq.cfg", inv=["ImplOrder"], InsertByValue="TRUE", Emit='"none"')),
     ]
     if quick:       # one run: design check of the small pool and its LTS; fewer negative controls (all in thorough)
         jobs.append(dict(name="emit-memo", module="GlobMemo", cfg="MC_GlobMemo_quick.cfg", tags={"EDGE"}))
         jobs = [j for j in jobs if j["name"] not in ("neg-nodotall", "neg-findfirst", "neg-stalecache", "neg-lookupmemo",
-                                                     "neg-keybeforetranslate", "neg-filesendcounter-order", "neg-scanstopsatlicense")]
+                                                     "neg-keybeforetranslate", "neg-filesendcounter-order", "neg-scanstopsatlicense",
+                                                     "neg-insertbyvalue-order")]
     else:
         jobs += [dict(name="memo", module="GlobMemo", cfg="MC_GlobMemo.cfg"),
                  dict(name="emit-memo", module="GlobMemo", cfg="MC_GlobMemo_emit.cfg", tags={"EDGE"})]
@@ -1410,7 +1721,7 @@ def run(ctx):
         # pipelined: the emission runs start first and the replay legs begin as soon as the emission they
         # need is there, while the design checks and negative controls (which feed no leg) still run;
         # they are collected -- and any failure raised -- before the verdict (finish_jobs below)
-        prio = {"emit-match": 0, "emit-match-3": 1, "emit-doc": 2, "cache": 3, "find-lts": 4, "emit-memo": 5}
+        prio = {"emit-match": 0, "emit-match-3": 1, "emit-doc": 2, "cache": 3, "find-lts": 4, "emit-memo": 5, "find-eq-lts": 6}
         jobs.sort(key=lambda j: prio.get(j["name"], 10))
         timeout = 900
 
@@ -1809,56 +2120,66 @@ def run(ctx):
     # Deb822 handle), paragraphs added behind the last Files paragraph of documents PARSED with stand-alone License
     # paragraphs anywhere in between, dump + parse again; every lookup must return the paragraph with the identity
     # the specification says.  Every state of the model is a document the history may start from.
-    f_edges = res["find-lts"].printed.get("EDGE", [])
     t_memo = time.time()
-    if not f_edges:
-        raise core.MachineryError("no EDGE lines from GlobFind")
-    gf = LTS(f_edges, {"d": [], "lay": []})
-    ctx.extra["find_lts"] = {"states": len(gf.states), "edges": len(gf.edges)}
-    for e in gf.edges:
-        ops["doc-" + e["op"]] = ops.get("doc-" + e["op"], 0) + 1
-    bad_f = sorted({skey(e["from"]["d"][0]) for e in gf.edges
-                    if e["op"] == "find" and e["res"] == -1 and len(e["from"]["d"]) == 1})
     n_fh = 0
     find_routes = {}
 
-    def find_run(sk, path, tag):
+    def find_leg(jobname, label, nwalks):
         nonlocal n_fh
-        start = gf.states[sk]
-        cmap = conc_map(rng, rng.choice(["canon", "rand", "case"]))
-        if n_fh % 40 == 4 and start["lay"]:
-            route = FORMS.aligned_route(4 * len(start["lay"]))
-        else:
-            route = rng.choice(["text", "lines", "bytes", "legacy", "form", "form", "prog", "prog-set", "prog-ctor",
-                                "prog-raw", "prog-text", "prog-mix", "prog-mix", "prog-borrow", "prog-iter"])
-        if route.startswith("prog") and not trailing_licenses_only(start["lay"]):
-            route = rng.choice(["text", "lines", "bytes", "form"])      # only a parser gives this layout
-        if route == "legacy":
-            route, cmap = "legacy:%d" % rng.randrange(10 ** 6), conc_map(rng, "uni")
-        elif route == "form":
-            route = FORMS.plain()
-        find_routes[route.split(":")[0]] = find_routes.get(route.split(":")[0], 0) + 1
-        lays = [rand_seps(rng, len(ps), route in TEXTUAL or route in ("prog-ctor", "prog-raw", "prog-text", "prog-mix", "prog-borrow", "prog-iter"))
-                for ps in start["d"]]
-        seed = rng.randrange(10 ** 9)
-        msg = run_find_path(start, path, cmap, route, lays, seed, bad_f)
-        ctx.case_seen(tag, True)
-        n_fh += 1
-        if msg:
-            report({"kind": "findhist", "start": start, "path": [strip(x) for x in path], "cmap": jmap(cmap),
-                    "route": route, "lays": lays, "seed": seed, "bad": bad_f}, msg)
+        f_edges = res[jobname].printed.get("EDGE", [])
+        if not f_edges:
+            raise core.MachineryError("no EDGE lines from GlobFind (%s)" % jobname)
+        gf = LTS(f_edges, {"d": [], "lay": [], "oth": []})
+        ctx.extra[label + "_lts"] = {"states": len(gf.states), "edges": len(gf.edges)}
+        for e in gf.edges:
+            ops["%s-%s" % (label, e["op"])] = ops.get("%s-%s" % (label, e["op"]), 0) + 1
+        bad_f = sorted({skey(e["from"]["d"][0]) for e in gf.edges
+                        if e["op"] == "find" and e["res"] == -1 and len(e["from"]["d"]) == 1})
 
-    def same_find(sk, e1):
-        return [x for x in gf.out[sk] if x["op"] == "find" and x["args"] == e1["args"]][0]
+        def find_run(sk, path, tag):
+            nonlocal n_fh
+            start = gf.states[sk]
+            cmap = conc_map(rng, rng.choice(["canon", "rand", "case"]))
+            if n_fh % 40 == 4 and start["lay"]:
+                route = FORMS.aligned_route(4 * len(start["lay"]))
+            else:
+                route = rng.choice(["text", "lines", "bytes", "legacy", "form", "form", "prog", "prog-set", "prog-ctor",
+                                    "prog-raw", "prog-text", "prog-mix", "prog-mix", "prog-borrow", "prog-iter"])
+            if route.startswith("prog") and not trailing_licenses_only(start["lay"]):
+                route = rng.choice(["text", "lines", "bytes", "form"])      # only a parser gives this layout
+            if route == "legacy":
+                route, cmap = "legacy:%d" % rng.randrange(10 ** 6), conc_map(rng, "uni")
+            elif route == "form":
+                route = FORMS.plain()
+            find_routes[route.split(":")[0]] = find_routes.get(route.split(":")[0], 0) + 1
+            lays = [rand_seps(rng, len(ps), route in TEXTUAL or route in ("prog-ctor", "prog-raw", "prog-text", "prog-mix", "prog-borrow", "prog-iter"))
+                    for ps in start["d"]]
+            # a failed parse is followed (every other time) by a fresh parse of the same text in this process:
+            # the Reparse step of the model, which leaves the state where it is
+            full = []
+            for e in path:
+                full.append(e)
+                if e["op"] == "fault" and e["args"][0] == "parse" and rng.random() < 0.5:
+                    full.append([x for x in gf.out[e["_t"]] if x["op"] == "reparse"][0])
+            path = full
+            seed = rng.randrange(10 ** 9)
+            msg = run_find_path(start, path, cmap, route, lays, seed, bad_f)
+            ctx.case_seen(tag, True)
+            n_fh += 1
+            if msg:
+                report({"kind": "findhist", "start": start, "path": [strip(x) for x in path], "cmap": jmap(cmap),
+                        "route": route, "lays": lays, "seed": seed, "bad": bad_f}, msg)
 
-    keys_f = sorted(gf.states)
-    if "find" in LEGS:
+        def same_find(sk, e1):
+            return [x for x in gf.out[sk] if x["op"] == "find" and x["args"] == e1["args"]][0]
+
+        keys_f = sorted(gf.states)
         for sk in keys_f:
             if nviol[0] >= 5:
                 break
             outs = gf.out.get(sk, [])
             finds = [x for x in outs if x["op"] == "find"]
-            edits = [x for x in outs if x["op"] != "find" and (x["_t"] != sk or x["op"] in ("reparse", "rawset"))]
+            edits = [x for x in outs if x["op"] != "find" and (x["_t"] != sk or x["op"] in ("reparse", "rawset", "fault"))]
             if not finds or not edits:
                 raise core.MachineryError("GlobFind state %s without lookups / edits" % sk)
             # every added paragraph: all names before and after, then the document dumped and parsed again
@@ -1866,20 +2187,25 @@ def run(ctx):
                 t = e2["_t"]
                 after = [x for x in gf.out[t] if x["op"] == "find"]
                 rep = [x for x in gf.out[t] if x["op"] == "reparse"][0]
-                find_run(sk, finds[:2] + [e2] + after + [rep] + after + gf.walk(rng, t, 2), ("find-add", sk, skey(e2["args"])))
+                find_run(sk, finds[:2] + [e2] + after + [rep] + after + gf.walk(rng, t, 2), (label + "-add", sk, skey(e2["args"])))
             # a lookup, one edit, the same lookup again, and on from there
             for e2 in rng.sample(edits, min(len(edits), 1 if quick else 4)):
                 e1 = rng.choice(finds)
                 find_run(sk, [e1, e2, same_find(e2["_t"], e1)] + gf.walk(rng, e2["_t"], 4),
-                         ("findhist", sk, skey(e1["args"]), e2["op"], skey(e2["args"])))
-        for w in range(150 if quick else 2000):
+                         (label + "hist", sk, skey(e1["args"]), e2["op"], skey(e2["args"])))
+        for w in range(nwalks):
             if nviol[0] >= 5:
                 break
             sk = rng.choice(keys_f) if w % 3 else gf.init
             find_run(sk, gf.walk(rng, sk, 14, weight=lambda x: 3 if x["op"] in ("addfiles", "addlicense", "reparse") else 1),
-                     ("findwalk", w))
+                     (label + "walk", w))
+
+    if "find" in LEGS:
+        find_leg("find-lts", "find", 150 if quick else 2000)
+        find_leg("find-eq-lts", "find_eq", 100 if quick else 1500)
     ctx.extra["find_histories_replayed"] = n_fh
     ctx.extra["find_history_routes"] = find_routes
+    ctx.extra["faulted_calls"] = dict(sorted(FAULT_LOG.items()))       # what the faulted calls themselves did (not judged)
     n_beh += n_fh
 
     t_cache = time.time()
@@ -1950,9 +2276,12 @@ def run(ctx):
         where = ("the regex of globs_to_re(%r); earlier direct translations in this history: %r"
                  % (held, [o[1] for o in t["script"]["ops"][:oi or 0] if o[0] == "translate"])
                  if op and op[0] in ("query", "translate") else
-                 "the document (built via %s) with Files paragraphs %s (a lookup returns the IDENTITY of a paragraph: its number in "
+                 "the document (built via %s) with Files paragraphs %s%s (a lookup returns the IDENTITY of a paragraph: its number in "
                  "the order the paragraphs came into the document); the calls before it: %s"
-                 % (t["script"]["route"], brief(cur), "; ".join(brief(repr(o), 90) for o in t["script"]["ops"][max(0, (oi or 0) - 6):oi or 0]) or "-"))
+                 % (t["script"]["route"], brief(cur),
+                    " (the first %d tagged %s: paragraphs with the same tag, patterns and layout are content-equal duplicates)"
+                    % (len(t["script"]["tags"]), ",".join(t["script"]["tags"])) if len(set(t["script"].get("tags") or [])) < len(t["script"].get("tags") or []) else "",
+                    "; ".join(brief(repr(o), 90) for o in t["script"]["ops"][max(0, (oi or 0) - 6):oi or 0]) or "-"))
         report({"kind": "trace", "script": t["script"], "first_unexplained_event": at + 1},
                "recorded history not explained by the Glob reference: event %d %r = call %r on %s"
                % (at + 1, ev, op, where))
